@@ -82,6 +82,15 @@ fn main() {
             println!("{bad} of {n} do not parse");
             println!("{tags:?}");
         }
+        "tokcmp" => {
+            // development aid: vp tokcmp <a> <b>
+            let a = std::fs::read_to_string(&args[2]).unwrap();
+            let b = std::fs::read_to_string(&args[3]).unwrap();
+            let o = vp::tokcmp::CmpOpts { edition_2015: true, accept_known_macro_delims: true, ..Default::default() };
+            println!("{:?}", vp::tokcmp::compare(&a, &b, &o));
+            println!("AST A:\n{}", vp::parse::canon_pretty(&a, "2021").unwrap_or_default());
+            println!("AST B:\n{}", vp::parse::canon_pretty(&b, "2021").unwrap_or_default());
+        }
         "replay" => {
             let p = vp::props::by_id(args.get(2).map(|s| s.as_str()).unwrap_or("")).unwrap_or_else(|| usage());
             let f = args.get(3).unwrap_or_else(|| usage());
